@@ -203,6 +203,14 @@ def boundary_strings(rng):
                 for z in (0, 1, 3):
                     for suf in (b"", b".", b".0", b".5", b"x", b".0x", b" ", b".00000000000000000000000"):
                         out.add(pre + b"0" * z + str(v).encode() + suf)
+    # zero padding of every length 0..50 in front of the overflow / range boundaries and in front of values spread over the
+    # refused interval above u64::MAX (a block-wise parser has its carry boundaries at decimal positions, not at 2^64)
+    pads = [U64_MAX, 2 ** 64, 2 ** 64 + 1, I64_MAX, 2 ** 63, 2 ** 63 + 1, 10 ** 19, 10 ** 19 - 1, 10 ** 20 - 1, 2 ** 53 - 1, 2 ** 53,
+            18446744073709551616 + 10 ** 15, 18449999999999999999, 18450000000000000000, 19999999999999999999, 27670116110564327424, 36893488147419103231]
+    for v in pads:
+        for z in range(0, 51):
+            for pre in (b"", b"+", b"-"):
+                out.add(pre + b"0" * z + str(v).encode())
     return out
 
 
